@@ -89,6 +89,7 @@ func gen(g *common.Gen) {
 				g.Op("rt %s n", txt)
 			}
 			g.Stat("minimal-value")
+			g.Op("rt %s %s", txt, common.Pick(r, []string{"s1", "s2", "s1z", "s3"}))
 			var pos []Position
 			m.Positions(v, nil, &pos)
 			for k := 0; k < 2 && len(pos) > 0; k++ {
@@ -114,6 +115,11 @@ func gen(g *common.Gen) {
 			if m.NoCopy {
 				g.Op("rt %s n", txt)
 			}
+			// segmented decoding: segments of 1 / 2 / 3 / 7 bytes (every value of more than a few bytes spans
+			// three or more segments), with and without an empty segment
+			g.Op("rt %s s1", txt)
+			g.Op("rt %s %s", txt, common.Pick(r, []string{"s2", "s3", "s7"}))
+			g.Op("rt %s %s", txt, common.Pick(r, []string{"s1z", "s2z", "s3z"}))
 			g.Stat("value")
 			if v.NonTrivial(true) {
 				g.Stat("value-nontrivial")
@@ -181,6 +187,31 @@ func gen(g *common.Gen) {
 }
 
 var cur *Model
+
+// denseWire cuts b into segments of k bytes (spec "s<k>"; a trailing "z" adds an EMPTY segment in the
+// middle), so that every value longer than 2k bytes is spread over three or more segments.
+func denseWire(b []byte, spec string) enc.Wire {
+	empty := strings.HasSuffix(spec, "z")
+	k := common.Atoi(strings.TrimSuffix(spec[1:], "z"))
+	if len(b) > 4096 && k < len(b)/512 {
+		k = len(b) / 512
+	}
+	var w enc.Wire
+	for i := 0; i < len(b); i += k {
+		j := i + k
+		if j > len(b) {
+			j = len(b)
+		}
+		w = append(w, b[i:j])
+		if empty && len(w) == 2 {
+			w = append(w, b[j:j])
+		}
+	}
+	if len(w) == 0 {
+		w = enc.Wire{b}
+	}
+	return w
+}
 
 func permilleCuts(spec string, n int) []int {
 	var out []int
@@ -263,6 +294,7 @@ func regen(dir string) string {
 	// its go:generate line does: no arguments, inside the directory
 	work := filepath.Join(scratch, "pkg", filepath.Base(dir))
 	os.MkdirAll(work, 0o755)
+	defFiles := 0 // files of the directory that carry model definitions
 	ents, _ := os.ReadDir(filepath.Join(repo, dir))
 	for _, e := range ents {
 		if e.IsDir() || !strings.HasSuffix(e.Name(), ".go") || e.Name() == "zz_generated.go" {
@@ -270,19 +302,40 @@ func regen(dir string) string {
 		}
 		data, _ := os.ReadFile(filepath.Join(repo, dir, e.Name()))
 		os.WriteFile(filepath.Join(work, e.Name()), data, 0o644)
-	}
-	cmd = exec.Command(tool)
-	cmd.Dir = work
-	if out, err := cmd.CombinedOutput(); err != nil {
-		return "fail generator-run " + strings.ReplaceAll(string(out), "\n", " ")
-	}
-	fresh, err := os.ReadFile(filepath.Join(work, "zz_generated.go"))
-	if err != nil {
-		return "fail no-output"
+		if !strings.HasSuffix(e.Name(), "_test.go") && (bytes.Contains(data, []byte("+field:")) || bytes.Contains(data, []byte("+tlv-model:"))) {
+			defFiles++
+		}
 	}
 	checked, err := os.ReadFile(filepath.Join(repo, dir, "zz_generated.go"))
 	if err != nil {
 		return "fail no-checked-in-file"
+	}
+	// The generator walks the package's files in Go map order: with model definitions in more than one
+	// file its output may depend on the run. Then "is exactly what the generator produces" is decided
+	// over many runs (all outputs must be identical and equal to the checked-in file), else one run.
+	runs := 1
+	if defFiles > 1 {
+		runs = 64
+	}
+	var fresh []byte
+	for i := 0; i < runs; i++ {
+		os.Remove(filepath.Join(work, "zz_generated.go"))
+		cmd = exec.Command(tool)
+		cmd.Dir = work
+		if out, err := cmd.CombinedOutput(); err != nil {
+			return "fail generator-run " + strings.ReplaceAll(string(out), "\n", " ")
+		}
+		out, err := os.ReadFile(filepath.Join(work, "zz_generated.go"))
+		if err != nil {
+			return "fail no-output"
+		}
+		if i > 0 && !bytes.Equal(out, fresh) {
+			return fmt.Sprintf("differs nondeterministic-generator run=%d definition-files=%d", i+1, defFiles)
+		}
+		fresh = out
+		if !bytes.Equal(fresh, checked) {
+			break
+		}
 	}
 	if bytes.Equal(fresh, checked) {
 		return "same"
@@ -339,6 +392,9 @@ func execOp(op string) string {
 		case "n":
 			return parseOut(m, enc.NewWireReader(wire), false)
 		default:
+			if f[2][0] == 's' {
+				return parseOut(m, enc.NewWireReader(denseWire(b, f[2])), false)
+			}
 			return parseOut(m, enc.NewWireReader(SplitAt(b, permilleCuts(f[2], len(b)))), false)
 		}
 	case "ins":
